@@ -2,6 +2,7 @@ package main
 
 import (
 	"fmt"
+	"runtime"
 	"sort"
 	"strings"
 	"time"
@@ -13,6 +14,7 @@ const epochNs = int64(1_000_000_000_000_000_000) // virtual clock start: 10^18 n
 
 // ledger collects evicted-callback deliveries of the current call.
 type ledger struct {
+	tick     *vtime.CapturedTicker
 	cur      []string
 	reentryV string // set if a callback found its own value still retrievable
 	c        CacheLike
@@ -21,13 +23,13 @@ type ledger struct {
 func (l *ledger) cb(id int) func(k, v int) {
 	return func(k, v int) {
 		l.cur = append(l.cur, fmt.Sprintf("cb%d:k%d=%d;", id, k, v))
-		if l.c != nil {
+		if c := l.c; c != nil {
 			// the callback runs outside internal locks: it may call back into the cache;
 			// the value it was given must be gone.
-			if g, ok := l.c.Get(k); ok && g == v {
+			if g, ok := c.Get(k); ok && g == v {
 				l.reentryV = fmt.Sprintf("callback for (k%d,%d) found that value still retrievable", k, v)
 			}
-			l.c.Count()
+			c.Count()
 		}
 	}
 }
@@ -138,6 +140,16 @@ func execCacheOp(c CacheLike, in CIn, l *ledger, parkInFn func()) COut {
 		}
 	case CAdvance:
 		vtime.VAdvance(in.D)
+	case CTick:
+		if l != nil && l.tick != nil {
+			// one tick is handed to the real janitor loop (unbuffered channel: it is taken only when the
+			// janitor sits in its select); then wait until the pass it triggers is over
+			if !l.tick.Fire(20 * time.Second) {
+				out.N = -7 // the janitor did not take the tick
+			} else if !waitJanitorsIdle() {
+				out.N = -8
+			}
+		}
 	case CBulkInsert:
 		for i := 0; i < bulkN; i++ {
 			c.SetForever(1000+i, 5000+i)
@@ -269,7 +281,7 @@ func (ci *cacheSeqInst) Apply(ev int, check bool) (string, string) {
 	if cnt != len(phys) || extra != wantExtra {
 		return fmt.Sprintf("%s: Count disagrees with the entries physically present", in.Op), fmt.Sprintf("after %v Count()=%d, physical entries=%d (alphabet %d, others %d want %d)", in, cnt, len(phys), nphys, extra, wantExtra)
 	}
-	if in.Op == CDeleteExpired {
+	if in.Op == CDeleteExpired || (in.Op == CTick && ci.m.Jan) {
 		for k := 0; k < NKC; k++ {
 			if ci.m.Ent[k].P && !ci.m.live(k) {
 				return "DeleteExpired: an expired entry survived", fmt.Sprintf("k%d", k)
@@ -321,9 +333,19 @@ func diffFields(want, got COut) string {
 }
 
 func (ci *cacheSeqInst) Key() string { return ci.keyFn(&ci.m) }
+var closedInstances int
+
 func (ci *cacheSeqInst) Close() {
 	ci.l.c = nil
 	ci.c = nil
+	if ci.m.Jan {
+		// released caches with a janitor keep a goroutine until their finalizer ran
+		closedInstances++
+		if closedInstances%256 == 0 {
+			runtime.GC()
+			runtime.GC()
+		}
+	}
 }
 func (ci *cacheSeqInst) Log() []string {
 	return append([]string{}, ci.log...)
@@ -346,7 +368,7 @@ func relKey(s *CState) string {
 			fmt.Fprintf(&sb, "%d:+%d|", e.V, e.E-s.Now)
 		}
 	}
-	fmt.Fprintf(&sb, "def=%d cb=%d bulk=%v", s.Def, s.CB, s.Bulk)
+	fmt.Fprintf(&sb, "def=%d cb=%d bulk=%v jan=%v", s.Def, s.CB, s.Bulk, s.Jan)
 	return sb.String()
 }
 
@@ -368,9 +390,50 @@ func newCacheSeqSpec(name string, cfg CacheCfg, defAtStart time.Duration, cbAtSt
 		c := newCache(c2)
 		l.c = c
 		m := CState{Now: epochNs, Def: defAtStart}
+		if mode == "C15" {
+			waitJanitorsIdle() // the janitor goroutine creates its ticker itself: let it get there
+		}
+		if tk := vtime.VCaptured(); len(tk) == 1 {
+			l.tick = tk[0]
+			m.Jan = true
+		}
 		if cbAtStart {
 			m.CB = 1
 		}
 		return &cacheSeqInst{c: c, m: m, l: l, events: events, keyFn: relKey, mode: mode}
 	}}
+}
+
+// waitJanitorsIdle returns once every goroutine that has a frame of package
+// cache (the janitors) is blocked in its select again. There is no hook at the
+// end of a cleanup pass, so the goroutine dump is the observation; the loop is
+// bounded by iterations, not by a time-out oracle.
+func waitJanitorsIdle() bool {
+	buf := make([]byte, 1<<20)
+	for iter := 0; iter < 200000; iter++ {
+		n := runtime.Stack(buf, true)
+		for n == len(buf) {
+			buf = make([]byte, 2*len(buf))
+			n = runtime.Stack(buf, true)
+		}
+		busy := false
+		for gi, g := range strings.Split(string(buf[:n]), "\n\n") {
+			if gi == 0 || !strings.Contains(g, "github.com/fufuok/cache.") {
+				continue // the first entry is the calling goroutine
+			}
+			hdr := g
+			if i := strings.IndexByte(g, '\n'); i >= 0 {
+				hdr = g[:i]
+			}
+			if !strings.Contains(hdr, "[select") {
+				busy = true
+				break
+			}
+		}
+		if !busy {
+			return true
+		}
+		runtime.Gosched()
+	}
+	return false
 }
